@@ -19,7 +19,7 @@ CHECKS = {
              "Drives encap + encap_frag over 16 families of buffer-size schedules (constant 13..70000, tiny buffers, payload-fits-but-CRC-does-not, land-on-PDU-end, ramps) for PDUs up to 65533 bytes, every PDU length once (thorough) and feeds every produced packet to a real decapsulator (storage sizes incl. 65535..65537 and multiples of 64 KiB, memories of 1..3 / 255 / 256 slots); also with the sender working ahead of the receiver from one buffer refilled in place, and along runs of 600 PDUs on one pair of endpoints. Held on the schedules generated; the schedule space is unbounded and sampled.",
              "Sender clauses are the weak reading: every buffer >= 13 accepted, per-buffer progress, completion within remaining+1 useful buffers." + COMMON_NOTE, "DESIGN.md §5 C02"),
     "C03": X("fault enumeration on fragment trains with an online reference reassembler evaluated on the bytes actually received (length + bit-serial CRC) and an end-to-end no-delivery oracle for the named fault classes",
-             "For seeded trains built by the real encapsulator: every single bit flip, every burst of 2..32 bits inside the protected bytes, truncation at every byte, drop/duplicate/swap of every fragment, frag id <- all 256 values, total length <- all 65536 values, CRC replacements, double faults, adversarially re-sealed trains (wrong interpretation sealed with a valid CRC), spliced trains, > 64 KiB trains with storage >= 64 KiB, and 4..64 KiB PDUs fragmented by the real encapsulator with faults spread over the whole PDU; every other faulted transfer follows a delivery of the intact train on the same receiver. Each faulted transfer is executed on the real decapsulator; a delivery is accepted only if the independent reassembly of the received bytes has the announced length and CRC and equals what was delivered.",
+             "For seeded trains built by the real encapsulator: every single bit flip, every burst of 2..32 bits inside the protected bytes, truncation at every byte, drop/duplicate/swap of every fragment, frag id <- all 256 values, total length <- all 65536 values, CRC replacements, double faults, adversarially re-sealed trains (wrong interpretation sealed with a valid CRC), spliced trains, > 64 KiB trains with storage >= 64 KiB, and 4..64 KiB PDUs fragmented by the real encapsulator with faults spread over the whole PDU, re-use trains within a label length of the 16-bit limit that carry less than announced, end fragments that arrive damaged and then intact while the application tops up the free list; every other faulted transfer follows a delivery of the intact train on the same receiver. Each faulted transfer is executed on the real decapsulator; a delivery is accepted only if the independent reassembly of the received bytes has the announced length and CRC and equals what was delivered.",
              "CRC collisions for bursts > 32 bits are possible and not alarms (oracle 1 is evaluated on received bytes). Header-bit faults are judged by oracle 1 only." + COMMON_NOTE, "DESIGN.md §5 C03", "fault_enumeration"),
     "C04": X("lock-step sender/receiver history monitor with ground-truth labels (exhaustive bounded-depth histories + random) and a receiver-only trace monitor on mutated streams",
              "All lock-step histories to depth 4 (quick) / 5 (thorough) over an alphabet of about 50 operations (8 labels incl. look-alikes; fitting / fragmenting / header-only / failing calls of every failing kind through encap and encap_ext, signalling PDUs, continuations, continuations from stale contexts, resets, re-use configuration changes, accessor calls, the receiving application draining and refilling the pool; the exact list is in the evidence file) plus long random histories; every produced packet is decapsulated at once and the attributed label compared with the label the caller passed. Independently, recorded traffic is mutated and the receiver's re-use resolutions are checked against the label carried by the nearest preceding start/complete packet.",
@@ -46,10 +46,10 @@ CHECKS = {
              "Sender workload as C06 plus whole PDUs driven to completion under constant-7, constant-8 and random >= 7 byte schedules: first-fragment context == payload carried, each continuation advances by exactly the bytes written or is the CRC-bearing end packet, payloads are consecutive slices, no empty intermediate fragment, completion within remaining+1 calls.",
              "Judged for PDUs <= 65535 bytes (longer PDUs cannot be started by encap)." + COMMON_NOTE, "DESIGN.md §5 C11"),
     "C12": X("differential against a bit-serial CRC-32/MPEG-2 reference anchored on the published check value; recording CrcCalculator on both sides of real transfers",
-             "All 256 values at every byte position of the protected header and the first 64 PDU bytes of seeded messages (every table index at every position), lattice lengths to 65535, random messages, the external check value 0x0376E6E7; end-fragment trailers of real trains and the arguments both sides pass to the calculator; receiver accepts iff trailer == reference.",
+             "All 256 values at every byte position of the protected header and the first 64 PDU bytes of seeded messages (every table index at every position), lattice lengths to 65535 (also as sub-slices starting 1..=8 bytes into a larger buffer), random messages, the external check value 0x0376E6E7; end-fragment trailers of real trains and the arguments both sides pass to the calculator; receiver accepts iff trailer == reference.",
              "" + COMMON_NOTE, "DESIGN.md §5 C12"),
     "C13": X("round-trip monitor for extension chains (independent chain walker + real receiver with all-knowing / lacking managers) and exhaustive constructor grid",
-             "All 65536 ids x data lengths 0..=10 for Extension::new; seeded chains of 1..4 extensions over every H-LEN class, known non-final and final mandatory extensions, all label kinds, PDUs 0..=64 at EVERY buffer size from 5 to the full packet (fragmentation at every offset), lattice sizes, storage == PDU length and larger, illegal combinations (judged by decodability).",
+             "All 65536 ids x data lengths 0..=10 for Extension::new; seeded chains of 1..4 extensions over every H-LEN class, known non-final and final mandatory extensions, all label kinds, PDUs 0..=64 at EVERY buffer size from 5 to the full packet (fragmentation at every offset), lattice sizes, storage == PDU length and larger, calls preceded by refused calls / by a broadcast packet through encap_ext that the receiver gets, illegal combinations (judged by decodability).",
              "A chain whose last element the receiver's table calls final while the sender's type is >= 0x0600 is a configuration mismatch and not generated." + COMMON_NOTE, "DESIGN.md §5 C13"),
     "C14": X("runtime oracle over complete enumeration: real codec vs independent TS 102 606 reading on all 65536 words and all 65536 triples",
              "Both directions of the header codec are executed on the complete finite input space and compared with an independent reading of the header layout; panics are observed with catch_unwind. Exhaustive: for this property a clean run is a complete decision for the build profiles exercised.",
@@ -61,7 +61,7 @@ CHECKS = {
              "Seeded prefixes of 1..200 hostile buffers (packets with trailing bytes, storage provisioned at random incl. up to 'full') on 15 receiver states (+ one with all 256 ids open; one receiver in three with max_pdu_frag = 8), then reset + one provisioned buffer, a valid complete packet (half with an extension header) and a valid fragmented PDU (real encapsulator output, a third with an extension header) on a seeded fragment id (all 256 reachable) and label kind; both must be delivered intact with exactly their own metadata; one history in three ends with the shadow of the probe's first fragment.",
              "A decap call of the prefix that panics is a violation (the sequence of calls cannot be completed)." + COMMON_NOTE, "DESIGN.md §5 C16"),
     "C17": X("executable bag model compared after every operation; exhaustive operation sequences to bounded depth + long random sequences; drained-clone audit",
-             "For memories of 1..4 slots every sequence of depth 5 (quick) / 7 (thorough) over provision (below / at / above size), new_pdu, new_frag, take_frag on aliasing and non-aliasing ids and save_frag; random sequences up to 10000 operations incl. 255 / 256 slots; foreign and over-sized buffers; contexts with extensions and look-alike fields; a context pending on all 256 ids at once; free-list capacity calibrated, buffers tagged.",
+             "For memories of 1..4 slots every sequence of depth 5 (quick) / 7 (thorough) over provision (below / at / above size), new_pdu, new_frag, take_frag on aliasing and non-aliasing ids and save_frag; random sequences up to 10000 operations incl. 255 / 256 slots; foreign and over-sized buffers; contexts with extensions and look-alike fields; a context pending on all 256 ids at once; memories built with 0 slots; free-list capacity calibrated, buffers tagged.",
              "" + COMMON_NOTE, "DESIGN.md §5 C17"),
     "C18": X("differential: preview vs real call on identical arguments over the sender workload",
              "encap_preview vs encap (on an encapsulator without remembered label, and vs the call actually made whenever that call did not substitute a re-use label) and encap_frag_preview vs encap_frag for every call of the sender workload (L x L lattice, all protocol types in thorough, every context position of small PDUs): same error, or same kind / packet length (/ payload length).",
@@ -70,7 +70,7 @@ CHECKS = {
              "Every packet emitted in the C10 frame workload (all kinds, labels, substituted and explicit re-use, extensions) is peeked alone, followed by 1..16 bytes and (sampled) at the head of a 64 KiB buffer, before and after its decapsulation and with a peek at another packet in between; what decap then reports must be the packet's own label / the sender's PDU of that fragment id.",
              "" + COMMON_NOTE, "DESIGN.md §5 C19"),
     "C20": X("three-way differential: utils generate/parse vs independent serialiser vs encapsulator output vs decapsulator acceptance, every payload length 0..=4000",
-             "For every payload length 0..=4000 and all label kinds: generate == reference serialisation == encapsulator output for the same fields; parse(generate(p)) == p; decap accepts with the same field values (first fragments are completed with a utils-generated end fragment); total lengths up to 65535; two trains in flight for every fragment id on 256 / 255 / 3 / 7-slot memories.",
+             "For every payload length 0..=4000 and all label kinds: generate == reference serialisation == encapsulator output for the same fields; parse(generate(p)) == p; decap accepts with the same field values (first fragments are completed with a utils-generated end fragment); total lengths up to 65535; fragmented PDUs shorter than a label; two trains in flight for every fragment id on 256 / 255 / 3 / 7-slot memories.",
              "" + COMMON_NOTE, "DESIGN.md §5 C20"),
 }
 
